@@ -24,6 +24,7 @@ type Engine struct {
 	baseShapes  map[string]Shape
 	baseNames   baselineNames
 	lostConsts  map[string]bool // init-time constants the baseline had and this tree no longer yields
+	brokenMemo  map[string]bool // functions whose helper postconditions fail for their own body (computed on demand)
 	fieldAlias map[string]string            // "pkg.T.old" -> "new": struct fields renamed since the baseline (matched by type)
 	localAlias map[string]map[string]string // function key -> old local / parameter / captured name -> new name
 	aliasUsed  map[string]bool              // function keys in which a heuristic alias was applied
@@ -1403,6 +1404,7 @@ type baselineNames struct {
 	Locals     map[string][][2]string    `json:"locals"`
 	InitConsts []string                  `json:"init_consts"` // package-level variables whose init-time value the engine extracts
 	SafeCounts map[string]map[string]int `json:"safe_counts"` // function -> class of run-time check ("nil", "index", "panic", ...) -> how many the function has
+	Uncontracted map[string][]string `json:"uncontracted_calls,omitempty"` // function -> callees it calls for which there is neither a body under analysis nor a contract
 }
 
 func (e *Engine) orderedLocals(fn *ssa.Function) [][2]string {
@@ -1445,7 +1447,7 @@ func (e *Engine) orderedLocals(fn *ssa.Function) [][2]string {
 }
 
 func (e *Engine) currentNames() baselineNames {
-	bn := baselineNames{Structs: map[string][][2]string{}, Locals: map[string][][2]string{}, SafeCounts: map[string]map[string]int{}}
+	bn := baselineNames{Structs: map[string][][2]string{}, Locals: map[string][][2]string{}, SafeCounts: map[string]map[string]int{}, Uncontracted: map[string][]string{}}
 	for k := range e.initConsts {
 		bn.InitConsts = append(bn.InitConsts, k)
 	}
@@ -1453,6 +1455,9 @@ func (e *Engine) currentNames() baselineNames {
 	for k, fn := range e.fnByKey {
 		if e.isRepoFn(fn) && len(fn.Blocks) > 0 {
 			bn.SafeCounts[k] = safeCounts(fn)
+			if u := e.uncontractedCalls(fn); len(u) > 0 {
+				bn.Uncontracted[k] = u
+			}
 		}
 	}
 	for k, fn := range e.fnByKey {
@@ -1652,6 +1657,55 @@ func safeCounts(fn *ssa.Function) map[string]int {
 		}
 	}
 	return m
+}
+
+// uncontractedCalls lists the callees of fn that the engine can only treat as opaque: no contract (own or
+// assumed), not a repo function with a body, not one of the logging / formatting functions.
+func (e *Engine) uncontractedCalls(fn *ssa.Function) []string {
+	seen := map[string]bool{}
+	for _, b := range fn.Blocks {
+		for _, in := range b.Instrs {
+			var cc *ssa.CallCommon
+			switch x := in.(type) {
+			case *ssa.Call:
+				cc = &x.Call
+			case *ssa.Defer:
+				cc = &x.Call
+			case *ssa.Go:
+				cc = &x.Call
+			}
+			if cc == nil {
+				continue
+			}
+			n := calleeName(cc)
+			if n == "" || benignOpaque(n) || e.contracts.funcs[n] != nil || e.contracts.dispatch[n] != "" {
+				continue
+			}
+			if callee := cc.StaticCallee(); callee != nil && e.isRepoFn(callee) && len(callee.Blocks) > 0 {
+				continue
+			}
+			seen[n] = true
+		}
+	}
+	return sortedBools(seen)
+}
+
+// newUncontractedCall: a callee of fn without contract that the baseline version of fn did not call.
+func (e *Engine) newUncontractedCall(key string) string {
+	fn := e.fnByKey[key]
+	if fn == nil || e.baseNames.Uncontracted == nil {
+		return ""
+	}
+	old := map[string]bool{}
+	for _, n := range e.baseNames.Uncontracted[key] {
+		old[n] = true
+	}
+	for _, n := range e.uncontractedCalls(fn) {
+		if !old[n] {
+			return n
+		}
+	}
+	return ""
 }
 
 // fnRefsLostConst: does fn read a package-level variable whose init-time value the baseline knew and
